@@ -129,6 +129,22 @@ def wfB (p : Poly) : Bool :=
   !(p.st.cPend && p.st.gPend) &&
   (p.st.empty || p.dim == 0 || p.st.cUp || p.st.gUp) && (p.dim != 0 || (!p.st.cUp && !p.st.gUp))
 
+/-- the extra invariants some theorems assume beyond `Poly.WF` (all guaranteed by `Polyhedron::OK()`):
+    marked empty ⇒ no description flagged; a pair that can have pending rows holds both descriptions;
+    pending rows only on such a pair -/
+def wfExtraB (p : Poly) : Bool :=
+  (!p.st.empty || (!p.st.cUp && !p.st.gUp)) &&
+  (!p.st.canPend || (p.st.cUp && p.st.gUp)) && (!p.st.gPend || p.st.canPend) && (!p.st.cPend || p.st.canPend)
+
+/-- `NNCInvW` (ProofsLattice15.lean): every point row belongs to the set generated by the closure part of
+    the system — lines and rays as they are, closure points read as points (decided with K1:
+    `gensToCons` of the closure part, then the point is tested against every row) -/
+def closurePartB (rows : List Row) : List Gen :=
+  rows.filterMap fun r => if !r.eq && r.b != 0 && r.eps != 0 then none else some (r.toGen false)
+def nncInvB (n : Nat) (rows : List Row) : Bool :=
+  let cs := gensToCons n (closurePartB rows)
+  rows.all fun r => !(!r.eq && r.b != 0 && r.eps != 0) || cs.all fun c => c.holdsAt r.cf r.b
+
 structure Case where
   id : String
   op : String
@@ -282,6 +298,11 @@ def processLine (line : String) (maxRows : Nat) : IO Unit := do
     | some r =>
       if !(wfB c.x && (match c.y with | some y => wfB y | none => true) && wfB r) then
         IO.println s!"MISMATCH {c.id} hyp {c.op} a real state violates Poly.WF (x={wfB c.x} r={wfB r})"
+      else if !(wfExtraB c.x && (match c.y with | some y => wfExtraB y | none => true) && wfExtraB r) then
+        IO.println s!"MISMATCH {c.id} hyp {c.op} a real state violates the status invariants (x={wfExtraB c.x} r={wfExtraB r})"
+      else if c.nnc && c.op == "time_elapse" &&
+          (match c.y with | some y => !y.st.empty && y.st.gUp && !y.st.cPend && y.gs.rows.length ≤ 12 && !nncInvB y.dim y.gs.rows | none => false) then
+        IO.println s!"MISMATCH {c.id} hyp {c.op} the generators of the NNC argument violate the matching-closure-point invariant"
       else
       let (q, ex, setOK) := runModel c
       let pre := s!"pre={stStr c.x.st} post={stStr r.st} dim={c.x.dim} nnc={if c.nnc then 1 else 0}"
